@@ -192,6 +192,10 @@ def scenarios(tier, seed):
             for b in (rd(0x1000, 4), wr(0x1000, 9)):
                 for gap in (0.0, 0.001):
                     out.append(({'cfg': {'seed': sd}, 'ops': [dict(a, gap=gap), dict(b)]}, 0))
+        # the serving application supplies fewer (or more) bytes than objects were requested - e.g. a read that runs over the
+        # end of a memory region: the client returns exactly what was supplied
+        for (count, nb) in ((16, 4), (16, 7), (9, 7), (8, 7), (8, 1), (3, 9), (7, 8), (4, 16)):
+            out.append(({'cfg': {'seed': sd}, 'ops': [dict(rd(0x1000, nb), count=count), rd(0x1000, 4)]}, 0))
         # different objects one after the other
         out.append(({'cfg': {'seed': sd}, 'ops': [rd(0x1000, 4), rd(0x2000, 4), wr(0x3000, 9), rd(0x1000, 9)]}, 0))
     # (3) delivery latencies in (0, 5 ms]: every uniform latency and every single per-frame deviation
